@@ -49,7 +49,8 @@ META = {
 NUM_TYPES = ["int", "long", "short"]
 SPECIALS = {
     "int": [2147483647, -2147483647, 65536, -65536],
-    "long": [5000000000, -5000000000, 9223372036854775807, -9223372036854775807, 4294967296],
+    # no long below INT_MIN: known finding C19-generic-long-arg-below-int-min
+    "long": [5000000000, 9223372036854775807, 4294967296, -2147483648, 2147483648, 140737488355328],
     "short": [32767, -32767, 256],
 }
 
@@ -72,13 +73,17 @@ def show(t, x):
     return str(x)
 
 
-def rand_val(rng, t, small=12):
+# long keys / values of a Map stay inside [-2^31, 2^31) u [2^32, 2^47): known finding C19-map-long-member-range
+MAP_LONG_SPECIALS = [4294967296, 5000000000, 140737488355327, -2147483648, 2147483647]
+
+
+def rand_val(rng, t, small=12, in_map=False):
     if t == "string":
         return rng.randrange(0, small)
     if t == "bool":
         return rng.randrange(0, 2)
     if rng.random() < 0.06:
-        return rng.choice(SPECIALS[t])
+        return rng.choice(MAP_LONG_SPECIALS if (in_map and t == "long") else SPECIALS[t])
     return rng.randrange(-3, small)
 
 
@@ -95,8 +100,7 @@ def new_cont(rng, kind, kdom=None):
         if kt == "string":
             c["koff"], c["kstride"] = 0, 1
         else:
-            c["koff"] = rng.choice([0, 0, -5, {"int": 2147483600, "long": 9223372036854775000, "short": 32700}[kt]
-                                    if c["kdom"] <= 40 else 0])
+            c["koff"] = rng.choice([0, 0, -5, {"int": 2147483500, "long": 5000000000, "short": 32600}[kt]])
             c["kstride"] = rng.choice([1, 1, 1, {"int": 7, "long": 10000000000, "short": 3}[kt]])
             if c["koff"] > 1000:
                 c["kstride"] = 1
@@ -126,9 +130,9 @@ def gen_op(rng, c, ci, phase, approx_len):
             op = "clear"
         k = key_of(c, rng.randrange(c["kdom"]))
         if op == "insert":
-            return [ci, op, k, rand_val(rng, c["v"], 50)]
+            return [ci, op, k, rand_val(rng, c["v"], 50, True)]
         if op == "get":
-            return [ci, op, k, rand_val(rng, c["v"], 99) if c["v"] != "bool" else rng.randrange(2)]
+            return [ci, op, k, rand_val(rng, c["v"], 99, True) if c["v"] != "bool" else rng.randrange(2)]
         if op in ("contains", "remove", "try_remove"):
             return [ci, op, k]
         return [ci, op]
@@ -178,6 +182,7 @@ def gen_random_case(rng, nops, conts):
             for i in range(min(c["kdom"], 16)):
                 ops.append([ci, "get", key_of(c, i), 77 if c["v"] != "bool" else 0])
             ops.append([ci, "height"])
+            ops.append([ci, "clear"])      # avoidance of C19-map-destructor-not-run: no Map is left non-empty
         elif c["kind"] == "vec":
             for i in range(min(approx[ci] + 1, 12)):
                 ops.append([ci, "at", i])
@@ -231,7 +236,7 @@ def gen_cases(seed, tier):
         if k % 2:
             rmo = sorted(rmo)
         ops += [[0, "try_remove", x] for x in rmo[: n - 3]] + [[0, "height"]]
-        ops = ops[:200]
+        ops = ops[:199] + [[0, "clear"]]
         out.append(("map-monotone", {"conts": [c], "ops": ops, "reps": 1}))
     # (4) single vector / queue histories
     for k in range(16 if q else 300):
@@ -644,10 +649,22 @@ def prune_conts(case):
             "reps": case.get("reps", 1)}
 
 
+def avoid_normalise(case):
+    """Keep a shrunk candidate inside the generator's avoidance predicates: every Map ends cleared."""
+    ops = list(case["ops"])
+    for ci, c in enumerate(case["conts"]):
+        if c["kind"] == "map":
+            mine = [o for o in ops if o[0] == ci]
+            if mine and mine[-1][1] != "clear":
+                ops.append([ci, "clear"])
+    return dict(case, ops=ops)
+
+
 def shrink(impl_dir, case, with_shim, budget=120):
     def bad(c):
         if not c["ops"]:
             return False
+        c = avoid_normalise(c)
         ok, _ = check_case(impl_dir, c, run_model([c])[0], with_shim)
         return not ok
     cur = dict(case)
@@ -672,7 +689,7 @@ def shrink(impl_dir, case, with_shim, budget=120):
             if size == 1:
                 break
             n = min(len(ops), n * 2)
-    cur = prune_conts(dict(cur, ops=ops))
+    cur = prune_conts(avoid_normalise(dict(cur, ops=ops)))
     return cur
 
 
@@ -687,20 +704,24 @@ def replay_finding(impl_dir, f, asan_dir=None):
         bad = rc != 0 or "runtime error" in e or "AddressSanitizer" in e
         return "fails" if bad or o.split("\n")[:-1] != r["expected_stdout"] else "passes"
     rc, lines, trace, err = run_impl(impl_dir, r["program"], with_shim=True)
-    if "expected_live_blocks" in r:
-        ev = [(t[1], t[2]) for t in trace if not (len(t) > 3 and t[3] == "12345")]
+    if rc != 0 or lines != r["expected_stdout"]:
+        return "fails"
+
+    def live_of(ev):
         live = set()
         for k, a in ev:
             if k == "M":
                 live.add(a)
             elif k == "F":
                 live.discard(a)
-        cal = set(t[2] for t in trace if len(t) > 3 and t[3] == "12345")
-        live -= cal
-        if rc != 0 or lines != r["expected_stdout"] or len(live) != r["expected_live_blocks"]:
-            return "fails"
-        return "passes"
-    return "fails" if rc != 0 or lines != r["expected_stdout"] else "passes"
+        return len(live)
+    cal = set(t[2] for t in trace if len(t) > 3 and t[3] == "12345")
+    raw = [(t[1], t[2]) for t in trace if t[2] not in cal]
+    if "expected_live_blocks" in r and live_of(raw) != r["expected_live_blocks"]:
+        return "fails"
+    if "expected_live_nodes" in r and live_of(canon_trace(trace)[0]) != r["expected_live_nodes"]:
+        return "fails"
+    return "passes"
 
 
 # ------------------------------------------------------------------ main
